@@ -5,6 +5,11 @@ ROOT = os.path.join(os.path.dirname(os.path.abspath(__file__)), "..")
 props = [json.loads(l) for l in open(os.path.join(ROOT, "properties.jsonl")) if l.strip()]
 
 CLAIMS = {
+    "C14": dict(
+        text="PARTIAL. Lean 4 theorems about an ownership-ledger model of src/ffi.rs (every Box::into_raw / forgotten boxed slice / CString::into_raw is an allocation, every from_raw a release): null_on_invalid (a buffer that does not decode to a valid bundle yields null and leaves the ledger untouched), ffi_ledger_balanced (after ANY call sequence, once every handle handed out has been released by its documented free function no allocation remains live — by an invariant relating the ledger to the object table, preserved by every FFI function), and the pinned frees are shown to leak (pinned_leaks). Tie to the code: the real extern \"C\" functions are called in-process on generated call sequences (valid, mutated, random, empty buffers; queries and frees in random order) under a counting global allocator; returned metadata / payload / validity / re-encoding are compared with the model and with the Rust API, and the net live allocation count after complete protocols with the model's ledger; a process abort inside an FFI call is reported with the op line being executed.",
+        note="NOT covered by the model or any theorem: spatial memory safety inside ffi.rs (reads/writes outside allocations, use-after-free) — the ledger cannot express it; the harness exercises the real code but does not run under AddressSanitizer. Buffers longer than u32::MAX are outside the model. Trusted: Lean kernel; axioms propext, Quot.sound; the counting allocator.",
+        technique="Lean 4 proof (ledger invariant by induction over call sequences) + in-process differential check under a counting allocator",
+        design="§6 C14"),
     "C09": dict(
         text="Lean 4 theorem Bp7.C09.now_unique: in the interleaving semantics of CreationTimestamp::now (one step for the clock read, one for the critical section under the mutex), for EVERY number of threads, EVERY schedule and EVERY sequence of clock readings (same ms, later, stepped back) the returned (time, seq) pairs are pairwise distinct — by the inductive invariant 'every pair handed out is lexicographically below the shared (last, next)'; now_sequential gives consecutive numbers / restart at 0 for non-overlapping calls. The pinned two-atomics code is modelled as well and refuted by two concrete schedules (decide). Tie to the code: real OS threads are driven through the cfg(bp7_verif) scheduling point by a baton scheduler that forces the schedule of each op line (all 70 interleavings of 2 threads x 2 calls x clock patterns, random 3-thread schedules), the returned pairs are compared with the model's; the 8-line body of now() is re-extracted and pinned on every run; a free-running 16-thread stress on the real clock is reported as supporting evidence only.",
         note="Trusted: Lean kernel; axioms propext, Quot.sound; std::sync::Mutex provides mutual exclusion and sequentially consistent visibility (weak-memory behaviours are outside the model); fewer than 2^64 calls per clock value (wrapping_add); the scheduling hook sits between the clock read and the lock.",
